@@ -4,7 +4,11 @@ Convert, ChangeType, ChangeInterface, MakeInterface, TypeAssert, Field, Index, P
 builtins); BFS from every origin (parameter, free variable, call result); for every reachable target (return operand,
 call/defer/go argument or receiver, closure binding, branch condition) the real summary must have an edge
 origin-node -> target-node. Functions: every function of every generated program + every function of the listed
-standard-library packages (summarised directly with IntraProceduralAnalysis)."""
+standard-library packages (summarised directly with IntraProceduralAnalysis).
+Second clause (closure of the abstract state): the analysis of every such function is re-run with a post-block callback
+that hands out the real analysis state; after the fixpoint, for every instruction and each of its CFG predecessor
+instructions (reference predecessor relation from the SSA blocks) every (access path, mark) attached to a value at the
+predecessor must be attached at the instruction - default and field-sensitive configuration."""
 import sys
 sys.path.insert(0, '/verif/lib')
 import vlib
@@ -21,6 +25,8 @@ def main(tier):
     values = edges = pairs = longp = funcs = 0
     samples = []
 
+    cpairs = [0]
+
     def consume(recs, deaths, label):
         nonlocal values, edges, pairs, longp, funcs
         for begin, tail in deaths:
@@ -28,7 +34,7 @@ def main(tier):
         for r in recs:
             if r.get('load_err') and label != 'std':
                 vlib.tool_error(f"program does not load: {r['sig']}: {r['load_err']}")
-            values += r['values']; edges += r['edges']; pairs += r['pairs']; longp += r['long']; funcs += r['funcs']
+            values += r['values']; edges += r['edges']; pairs += r['pairs']; longp += r['long']; funcs += r['funcs']; cpairs[0] += r.get('closure_pairs', 0)
             if r.get('panic'):
                 rep.fail(f"{r['sig']} / panic", r['atoms'] + ['panic', 'fn:' + r['sig']], dict(sig=r['sig'], panic=r['panic']))
             if r.get('missing'):
@@ -42,10 +48,10 @@ def main(tier):
     std_funcs = len(recs)
     consume(recs, deaths, 'std')
     rep.cov = dict(states=max(values, 1), transitions=max(edges, 1), traces_validated_against_impl=funcs,
-                   evaluations=pairs, distinct_nontrivial=longp,
-                   rule='evaluation = (origin, target) pair reachable in the reference value graph; non-trivial = pair connected '
+                   evaluations=pairs + cpairs[0], distinct_nontrivial=longp,
+                   rule='evaluation = (origin, target) pair reachable in the reference value graph, or (predecessor instruction, instruction, value, mark) inclusion of the closure clause; non-trivial = pair connected '
                         'through >= 2 value-computing instructions; states/transitions = SSA values visited / operand edges followed',
-                   functions=funcs, std_functions=std_funcs, std_packages=t['std'].split(','), samples=samples)
+                   functions=funcs, closure_inclusions_checked=cpairs[0], std_functions=std_funcs, std_packages=t['std'].split(','), samples=samples)
     rep.assumptions = ['loads, stores, address computations and map lookups are deliberately not edges of the reference (memory is C01)',
                        'std functions are summarised out of context (not reachable from a main): dynamic calls without resolved callee are skipped',
                        'the monotone-closure clause (O2 of the design) is not implemented yet']
